@@ -258,6 +258,7 @@ func cascade(lw, lr, lt, lb, lp, lrp int) {
 
 func VerifC18_Cascade_Q1() { cascade(2, -1, 2, 2, 2, 0) }
 func VerifC18_Cascade_Q2() { cascade(-1, 2, -1, 1, 2, 2) }
+func VerifC18_Cascade_Q3() { cascade(1, 1, 1, 1, 0, 1) } // the empty (unresolvable) name
 func VerifC18_Cascade_T1() { cascade(2, 2, 2, 2, 3, 3) }
 func VerifC18_Cascade_T2() { cascade(3, 2, 3, 3, 4, 2) }
 func VerifC18_Cascade_T3() { cascade(1, 1, 1, 1, 1, 1) }
